@@ -193,7 +193,15 @@ fn strip_text(v: &Value) -> Value {
 }
 
 pub fn cut_unit(ctx: &Ctx, rng: &mut Rng, o: &mut Out) {
-  let sources = corpus::load();
+  let mut sources = corpus::load();
+  // the same files with CRLF line ends: tokens that span lines (block comments, template strings,
+  // raw strings) then contain `\r\n`, and a pattern cut from them must still match them
+  let crlf: Vec<Source> = sources
+    .iter()
+    .filter(|s| s.text.contains('\n') && !s.text.contains('\r'))
+    .map(|s| Source { lang: s.lang, name: format!("{}#crlf", s.name), text: s.text.replace('\n', "\r\n") })
+    .collect();
+  sources.extend(crlf);
   let per_src = if ctx.thorough { 600 } else { 150 };
   let mut guard_pass = 0usize;
   let mut guard_total = 0usize;
@@ -285,6 +293,23 @@ pub fn cut_unit(ctx: &Ctx, rng: &mut Rng, o: &mut Out) {
   o.oracle("cut-matches-done", true, json!({"cases": oracle_cases, "guard_pass": guard_pass, "guard_total": guard_total}));
 }
 
+/// "structurally identical code" for two occurrences of one meta-variable
+fn struct_identical(a: &N, b: &N) -> bool {
+  if a.node_id() == b.node_id() {
+    return true;
+  }
+  // a node without NAMED children is compared by its text (gh #276 / #1087)
+  let leaf = |n: &N| !n.children().any(|c| c.is_named());
+  if leaf(a) || leaf(b) {
+    return a.text() == b.text();
+  }
+  if a.kind_id() != b.kind_id() {
+    return false;
+  }
+  let (ca, cb): (Vec<N>, Vec<N>) = (a.children().collect(), b.children().collect());
+  ca.len() == cb.len() && ca.iter().zip(cb.iter()).all(|(x, y)| struct_identical(x, y))
+}
+
 /// C03: near misses — patterns cut from one node, tried on other nodes of the same file
 pub fn near_miss_unit(ctx: &Ctx, rng: &mut Rng, o: &mut Out) {
   let sources = corpus::load();
@@ -305,6 +330,54 @@ pub fn near_miss_unit(ctx: &Ctx, rng: &mut Rng, o: &mut Out) {
       let named: Vec<N> = all.iter().filter(|n| n.is_named() && n.range().len() > 0 && n.range().len() <= 300).cloned().collect();
       if named.is_empty() {
         continue;
+      }
+      // structural equality behind a repeated meta-variable (`MetaVarEnv::insert` of a bound name):
+      // pairs of nodes of the SAME kind, preferring pairs whose child counts differ (one child list
+      // may be a prefix of the other: `new Foo` / `new Foo(1)`, `if` with and without `else`)
+      {
+        use ast_grep_core::meta_var::MetaVarEnv;
+        let budget = if ctx.thorough { 400 } else { 120 };
+        let mut by_kind: std::collections::HashMap<u16, Vec<&N>> = std::collections::HashMap::new();
+        for n in all.iter().filter(|n| n.children().len() > 0) {
+          by_kind.entry(n.kind_id()).or_default().push(n);
+        }
+        let mut groups: Vec<&Vec<&N>> = by_kind.values().filter(|g| g.len() >= 2).collect();
+        groups.sort_by_key(|g| g[0].kind_id());
+        let mut done = 0usize;
+        'outer: for g in groups {
+          for (i, a) in g.iter().enumerate() {
+            for b in g.iter().skip(i + 1) {
+              let differ = a.children().len() != b.children().len();
+              if !differ && !rng.chance(1, 8) {
+                continue;
+              }
+              for (x, y) in [(a, b), (b, a)] {
+                let mut env = MetaVarEnv::new();
+                let r = guard(|| {
+                  env.insert("A", (**x).clone());
+                  json!(env.insert("A", (**y).clone()).is_some())
+                });
+                // reference written from the documented meaning ("structurally identical code"):
+                // same kind, same number of children, pairwise identical; a named leaf on either
+                // side compares by text (gh #1087)
+                let want = struct_identical(x, y);
+                if r != json!(want) {
+                  o.oracle(
+                    "exact-match-structural",
+                    false,
+                    json!({"fp": format!("repeated variable: structural identity want={want} child-counts-differ={}", x.children().len() != y.children().len()),
+                           "lang": src.lang.to_string(), "a": x.text(), "b": y.text(), "kind": x.kind(), "got": r}),
+                  );
+                }
+                o.op("exact_match", json!({"t": tid, "a": ids.of(x), "b": ids.of(y)}), r);
+              }
+              done += 1;
+              if done >= budget {
+                break 'outer;
+              }
+            }
+          }
+        }
       }
       // token-dropped near misses: the pattern is the node's own text with one UNNAMED token left
       // out (and, half of the time, the named sibling after it replaced by a hole); tried on the
